@@ -1,4 +1,6 @@
 """C13 — evaluation is pure: the caller's scope is untouched and results are repeatable.
+Model level (run_models): generated DMN models of props/c13gen.py (XML by the builders of props/c04.py) in which invocations of services /
+knowledge models are surrounded by reads of the caller's names; each invocable twice per evaluator, values against a Python oracle.
 Proof: coq/Props/C13.v (the scope-stack machine of coq/C01/Impl.v restores the stack for every expression and every stack; any sequence
 of evaluations returns the solo values).  Correspondence: histories of evaluations of prepared evaluators over persistent multi-context
 scopes (scope text before/after parse/after evaluation, value = first value = model value), and shuffled repeated invocations of a model."""
@@ -7,6 +9,8 @@ import json
 from vlib import core
 from vlib.coqterm import App
 from props import c01gen as G
+from props import c04 as M4          # XML builders of generated requirement graphs (xml_of, nm, ctx_text, norm): imported, not copied
+from props import c13gen as MG       # the typed generator of models with colliding names and its Python evaluator
 from props.c01 import mval, ival, Poison, numc
 
 HEADER = ('From Coq Require Import List ZArith NArith Bool.\nFrom DV Require Import C01.Syntax C01.Spec C01.Impl.\nImport ListNotations.\nOpen Scope Z_scope.\n'
@@ -85,6 +89,107 @@ def split_contexts(rng, entries):
             cs[0].append((v, ('num', 99)))       # a shadowed binding lower in the stack
     cs = [tuple(sorted(dict(c).items())) for c in cs]
     return cs
+
+
+def model_requests(ctx):
+    """generated models; per model every invocable with 2 input contexts, every (invocable, input) TWICE, the two rounds in different orders"""
+    rng = ctx.rng
+    want_models = ctx.pick(1500, 20000)
+    witnesses = MG.witness_models()
+    reqs, meta = [], []
+    dropped = 0
+    while len(reqs) < want_models + len(witnesses) and dropped < 20 * want_models:
+        if len(reqs) < len(witnesses):
+            Gr, fn = witnesses[len(reqs)], {}
+        else:
+            g = MG.gen_model(rng, rng.randint(8, ctx.pick(13, 16)))
+            Gr, fn = g.G, g.fn
+        B = M4.by_id(Gr)
+        mdl = MG.Model(Gr)
+        pairs = []
+        for n in Gr:
+            if n['kind'] == 'input':
+                continue
+            for d in MG.input_sets(rng, B, fn, n):
+                pairs.append((n['id'], d))
+        first, second = list(pairs), list(pairs)
+        rng.shuffle(first)
+        rng.shuffle(second)
+        if rng.random() < 0.3:
+            second = list(reversed(first))
+        seq = first + second
+        exp = {}
+        try:
+            for i, d in pairs:
+                key = (i, M4.ctx_text(d))
+                if key not in exp:
+                    exp[key] = MG.canon(mdl.invoke(i, d))
+        except (MG.TooBig, RecursionError):
+            dropped += 1          # functions composed so deeply that the values explode: not used (the evaluator under test would build them too)
+            continue
+        reqs.append({'xml': M4.xml_of(Gr, rng), 'calls': [[M4.nm(i), M4.ctx_text(d)] for i, d in seq]})
+        meta.append((Gr, [exp[(i, M4.ctx_text(d))] for i, d in seq]))
+    ctx.cov['models_dropped_because_values_explode'] = dropped
+    return reqs, meta
+
+
+def shrink_case(ctx, Gr, rq, bad):
+    """a smaller failing input: the failing call alone, over the nodes of its requirement closure only - kept only when the evaluator
+    answers exactly as it did in the sequence (a leak between evaluations would need the calls before it)"""
+    import random
+    call = rq['calls'][bad]
+    B = M4.by_id(Gr)
+    keep = M4.closure_names(B, M4.num_of(call[0]))
+    small = [n for n in Gr if n['id'] in keep]
+    cands = [(M4.xml_of(small, random.Random(0)), small), (rq['xml'], Gr)]
+    rs = ctx.run_impl('model', [{'xml': x, 'calls': [call]} for x, _ in cands])
+    return [(x, g, (r.get('results') or [r])[0] if isinstance(r, dict) else r) for (x, g), r in zip(cands, rs)]
+
+
+def run_models(ctx):
+    reqs, meta = model_requests(ctx)
+    impl = ctx.run_impl('model', reqs, shards=16)
+    feats, shown = {}, 0
+    for rq, (Gr, exp), ri in zip(reqs, meta, impl):
+        ctx.evaluations += 1
+        desc = M4.describe(Gr)
+        if not isinstance(ri, dict) or ri.get('build') != 'ok' or len(ri.get('results', [])) != len(rq['calls']):
+            ctx.violation('a generated model did not load or the evaluator died: %s' % json.dumps(ri)[:300], {'xml': rq['xml'], 'calls': rq['calls'], 'graph': desc}, impl=ri)
+            continue
+        fs = MG.features(Gr)
+        for f in fs:
+            feats[f] = feats.get(f, 0) + 1
+        if any('followed by a read' in f for f in fs):
+            ctx.nontrivial.add(rq['xml'])
+        seen = {}
+        for ci, (call, r, want) in enumerate(zip(rq['calls'], ri['results'], exp)):
+            got = M4.norm(r['v']) if 'v' in r else ('?', json.dumps(r))
+            ctx.corr_checked += 1
+            key = tuple(call)
+            what = None
+            node = M4.by_id(Gr)[M4.num_of(call[0])]
+            logic = M4.box(node.get('logic') or node.get('body')) if node['kind'] != 'svc' else M4.coq_node(node)
+            case = {'xml': rq['xml'], 'calls': rq['calls'], 'failing_call': call, 'failing_index': ci, 'logic': logic, 'node': M4.coq_node(node), 'graph': desc}
+            if got != want:
+                # the same call alone, on the nodes it needs only: the smallest input that is answered the same way is the one recorded
+                for x, g, r1 in shrink_case(ctx, Gr, rq, ci):
+                    if isinstance(r1, dict) and r1 == r:
+                        case = {'xml': x, 'calls': [call], 'failing_call': call, 'failing_index': 0, 'logic': logic, 'node': M4.coq_node(node), 'graph': M4.describe(g)}
+                        break
+                what = ('%s %s invoked with %s returns %s; its logic evaluated over the names of its own scope gives %s (call %d of %d of one evaluator; recorded input: %d call(s), %d nodes). '
+                        'logic: %s' % (node['kind'], call[0], call[1], json.dumps(r.get('v', r))[:200], repr(want)[:200], ci + 1, len(rq['calls']), len(case['calls']), len(case['graph']), logic[:400]))
+            elif key in seen and seen[key] != got:
+                what = '%s invoked with %s returned %s first and %s later from the same evaluator' % (call[0], call[1], repr(seen[key])[:200], repr(got)[:200])
+            seen.setdefault(key, got)
+            if what:
+                ctx.violation(what, case, impl=r, model=repr(want))
+                break
+        if shown < 2:
+            shown += 1
+            ctx.sample({'graph': desc, 'calls': rq['calls'][:4], 'results': ri['results'][:4]})
+    ctx.cov['models'] = len(reqs)
+    ctx.cov['model_features'] = dict(sorted(feats.items()))
+    return feats
 
 
 def run(ctx):
@@ -217,13 +322,26 @@ def run(ctx):
                 ctx.violation('invocable %s with %s returned %s, expected %s in a sequence of interleaved invocations' % (call[0], call[1], json.dumps(got)[:200], json.dumps(want)[:200]),
                               {'calls': rq['calls'], 'failing_call': call}, impl=got, model=want)
                 break
+    # ---- model level: generated models in which invocations are surrounded by reads of the caller's names
+    run_models(ctx)
     return ctx.finish(
         rule='histories: 1..3 persistent scopes (stacks of 1..3 contexts with shadowed bindings), 2..4 prepared expressions of the C01 generator biased to constructs that push '
              'contexts (context literals, filters, for/some/every, invocations), 4..%d evaluations in random order with repetitions; checked: scope text before = after parse = after evaluation, '
              'every value equals the first value of the same (expression, scope) and the machine model\'s value; plus shuffled repeated invocations of four invocables '
-             '(literal, boxed context with for and filter, decision requiring decisions, BKM) of one model evaluator. non-trivial = history containing a pushing construct' % ctx.pick(14, 50),
+             '(literal, boxed context with for and filter, decision requiring decisions, BKM) of one model evaluator; model level: %d generated typed DMN models (props/c13gen.py, serialised by the '
+             'builders of props/c04.py) of 8..%d nodes - decision services (input / encapsulated / one or two output decisions), knowledge models with literal, boxed-context (with and without result '
+             'entry, nested), boxed-invocation and service-calling bodies, decisions with literal / context / invocation / relation logic - in which every invocation is preceded / followed by reads '
+             'of names of the enclosing scope (required inputs and decisions, earlier context entries, formal parameters) and the callees bind the SAME names (parameters and entries named like the '
+             'caller\'s inputs, decisions and entries; service parameters = input data names) to other values (arguments `name + k`); shapes call + read, read + call, read + call + read, call + call, '
+             'call(call) + read in literal expressions, context entries, bindings, relation cells, bodies; every invocable invoked through evaluate_invocable with 2 input contexts, each call TWICE '
+             'from one evaluator in two different orders; oracle = value computed by a Python evaluator of the node semantics over ints and strings (no nulls), and equal answers to equal calls; '
+             'a failing call is shrunk to the call alone over its requirement closure. non-trivial = history containing a pushing construct / model with a read after an invocation'
+             % (ctx.pick(14, 50), ctx.cov.get('models', 0), ctx.pick(13, 16)),
         extra_cov={'exhaustive': False, 'histories_with_pushing_constructs': pushing},
-        assumptions=['Scope Display text identifies the contexts and entries held by a scope', 'times of day in named zones are not generated (excluded by the property)'])
+        assumptions=['Scope Display text identifies the contexts and entries held by a scope', 'times of day in named zones are not generated (excluded by the property)',
+                     'model level: the scope of the caller inside a model evaluation is not exposed by the crate; it is observed through the values of the names read after / before an invocation '
+                     '(every generated name has a non-null value that differs from the value the callee binds to the same name)',
+                     'model level: bodies of knowledge models refer to their parameters, their own context entries and their required knowledge only (what a body sees of the CALLER\'s scope is C04\'s subject)'])
 
 
 def replay(ctx, path):
@@ -234,7 +352,18 @@ def replay(ctx, path):
         r = ctx.run_impl('pure', [c])[0]
         print(json.dumps(r, ensure_ascii=False)[:3000])
     else:
-        r = ctx.run_impl('model', [{'xml': XML, 'calls': c['calls']}])[0]
+        r = ctx.run_impl('model', [{'xml': c.get('xml', XML), 'calls': c['calls']}])[0]
+        if 'xml' in c:
+            print(c['xml'])
+            i = c.get('failing_index', 0)
+            now = (r.get('results') or [r])[i] if isinstance(r, dict) else r
+            print('call          :', c['calls'][i])
+            print('implementation:', json.dumps(now)[:600])
+            print('recorded      :', json.dumps(obj.get('impl'))[:600], ' expected:', obj.get('model'))
+            print('what          :', obj.get('what'))
+            same = now == obj.get('impl')
+            print('REPRODUCED' if same else 'not reproduced (the implementation now answers differently)')
+            return 1 if same else 0
         print(json.dumps(r)[:3000])
     print('what was recorded:', obj.get('what'))
     return 1
@@ -244,6 +373,8 @@ MANIFEST = dict(
     technique='Coq proof (scope-stack machine restores the stack and returns the solo value for every expression, stack and evaluation sequence) with history correspondence',
     text='Theorems (coq/Props/C13.v) hold for every expression of the core fragment, every scope stack and every sequence of evaluations: the transliterated evaluator leaves the stack exactly '
          'as it found it (each push matched by a pop, no set_entry below the pushed context) and each evaluation returns its solo value. Tied to the code by histories of prepared evaluators over '
-         'persistent multi-context scopes (scope text compared before/after parse/after evaluation; value = first value = model value) and by shuffled repeated model invocations.',
+         'persistent multi-context scopes (scope text compared before/after parse/after evaluation; value = first value = model value), by shuffled repeated model invocations, and at model level by '
+         'generated DMN models (decision services, knowledge models with literal / boxed context / boxed invocation bodies, decisions calling them as functions) in which every invocation is surrounded by '
+         'reads of names of the enclosing scope that the callee binds to other values: every invocable is evaluated twice in two orders and must return the value a Python evaluator of the node semantics gives.',
     note='Trusted: Coq kernel + vm_compute, the machine model of builders.rs/iterations.rs (correspondence-checked), Scope Display as observation of the scope. The parser\'s own scope handling '
          '(push/pop while parsing contexts, for, function parameters) is observed by the correspondence only, not modelled; built-ins and temporal values are outside the fragment.')
